@@ -12,6 +12,18 @@ open Cdi Cdi.Schema
 /-- F8: the only keyword draft-07 ignores in the shipped files is the misspelt "ref" -/
 theorem F8_ignored_keywords : Generated.schemaIgnoredKeywords = ["ref"] := by decide
 
+/-- F12 (regenerated from schema/schema.go): an entry point of the model runs the annotation content check only if
+the exported method behind it reaches, in the code, a function that calls the validation package; every entry
+point's method reaches the engine; and the methods that reach the content check are exactly the two the model names -/
+theorem F12_content_check_where_the_code_has_it :
+    (∀ e : Entry, runsContents true e = true → Generated.schemaContentCheckers.contains (entryMethod e) = true) ∧
+    (∀ e : Entry, Generated.schemaEngineCallers.contains (entryMethod e) = true) ∧
+    (∀ m ∈ Generated.schemaContentCheckers, m = "ValidateData" ∨ m = "ValidateFile") := by
+  refine ⟨?_, ?_, ?_⟩
+  · intro e; cases e <;> decide
+  · intro e; cases e <;> decide
+  · decide
+
 /-- **C17 (none / nil never reject)** -/
 theorem C17_none_accepts (e : Entry) (doc : JVal) (c : SchemaChoice) (hc : c = .none ∨ c = .nil) :
     verdict c e doc = true := by
